@@ -202,8 +202,10 @@ def oracle_single(case):
     if e0["log"] != p0["log"] or e0["ph"] != p0["ph"]:
         return ("prefix", {"log": p0["log"], "phase": p0["ph"]}, {"log": e0["log"], "phase": e0["ph"]}), tags
     if p0["out"] != "-":
-        tags.add("done-in-prefix:" + ("ret" if p0["out"][0] == "R" else
-                                      "baseexc" if p0["out"] in ("XB1", "CA") else "exc"))
+        o = p0["out"].rstrip("~")
+        tags.add("done-in-prefix:" + ("ret" if o[0] == "R" else
+                                      "cancel-subclass-or-args" if o in ("SD", "C2") else
+                                      "baseexc" if o in ("XB1", "CA") else "exc"))
         if e0["out"] != p0["out"] or e0["nt"] != "nt0":
             return ("done-no-task", {"out": p0["out"], "new_tasks": "nt0"},
                     {"out": e0["out"], "new_tasks": e0["nt"]}), tags
@@ -263,7 +265,7 @@ def oracle_single(case):
     if case["marks"]:
         fin = cumulative(e_snaps, case["marks"][-1])
         if fin["out"] != "-":
-            tags.add("completed:" + ("cancelled" if fin["out"] == "CA" else "ret" if fin["out"][0] == "R" else "exc"))
+            tags.add("completed:" + ("cancelled" if fin["out"].rstrip("~") in ("CA", "SD", "C2") else "ret" if fin["out"][0] == "R" else "exc"))
     return None, tags
 
 
@@ -343,13 +345,21 @@ def gen_multi(rng, with_cancel):
     ntop = rng.randint(2, 3)
     children = []
     progs = []
+    awaited = set()
     for i in range(ntop):
         p = L.gen_prog(rng, nfut, size=rng.randint(1, 5), cancel_handlers=with_cancel)
         if rng.random() < 0.55:
             # make sharing likely: everybody awaits future 0 somewhere
             p.insert(rng.randint(0, len(p)), ["A", 0])
-        if i > 0 and rng.random() < 0.4:
-            p.insert(rng.randint(0, len(p)), ["W", rng.randrange(i)])
+        # each coroutine is awaited by at most one other: a cancelled asyncio.Task hands the
+        # CancelledError its coroutine raised to its *first* awaiter only (later ones get a fresh plain
+        # CancelledError), whereas the completed future of a coroutine that finished in its prefix gives
+        # the original to everybody - asyncio's quirk, not a difference the property is about
+        free = [j for j in range(i) if j not in awaited]
+        if free and rng.random() < 0.4:
+            j = rng.choice(free)
+            awaited.add(j)
+            p.insert(rng.randint(0, len(p)), ["W", j])
         if rng.random() < 0.3:
             c = len(children)
             children.append(L.gen_prog(rng, nfut, size=rng.randint(1, 4), cancel_handlers=with_cancel))
@@ -523,7 +533,7 @@ def correspondence(ctx, prop, cases, theorem):
         raise core.InfraError(f"Eager driver answered {len(outs)} lines for {len(lines)} cases")
     bad = []
     for (c, m), o in zip(cases, outs):
-        real = real_single(c, m)
+        real = [x.replace("~ |", " |") for x in real_single(c, m)]
         ctx.traces += 1
         model = o.split(" ;; ")
         if prop == "C03":
@@ -704,6 +714,8 @@ def run_stream(ctx, prop, theorem, with_cancel, n_single, n_raw, n_multi):
         if m == "E":
             neighbourhood(ctx, prop, c, theorem)
     ctx.extra["correspondence_mismatches"] = len(bad)
+    ctx.extra["custom_task_factory_calls"] = len(R.factory_calls)
+    ctx.extra["custom_task_factory_got"] = sorted(set(R.factory_calls))
     for _ in range(n_multi):
         case = gen_multi(rng, with_cancel)
         check_multi(ctx, prop, case, theorem)
